@@ -87,6 +87,15 @@ def switch_registry(old, new):
                                         namespace=world.ns_reg(key[1]), **kw)
 
 
+def mode_ctx(rng):
+    import contextlib
+    if rng.random() < 0.5:
+        return contextlib.nullcontext(), 'unchanged'
+    n = rng.choice([0, 1, 2])
+    flag = rng.random() < 0.7
+    return optree.dict_insertion_ordered(flag, namespace=world.ns_reg(n)), 'switched'
+
+
 def impl_pickle(cfg, o, regs2, label, rng, res, fresh):
     case = (9, cfg, o, regs2)
     w = World(cfg)
@@ -101,16 +110,22 @@ def impl_pickle(cfg, o, regs2, label, rng, res, fresh):
         ls, sp = f[1]
         proto = rng.choice(list(range(2, pickle.HIGHEST_PROTOCOL + 1)))
         how = rng.choice(['pickle', 'pickle', 'copy', 'deepcopy']) if label == 'same' else 'pickle'
-        data = pickle.dumps(sp, protocol=proto)
+        # the dict-order mode in force while dumping / loading may differ from the one the treespec
+        # was flattened under: the treespec (original key order included) must not depend on it
+        ctx_dump, ctx_load = mode_ctx(rng), mode_ctx(rng)
+        res.count('dump_mode_%s' % ctx_dump[1])
+        with ctx_dump[0]:
+            data = pickle.dumps(sp, protocol=proto)
         state0 = (sp.__getstate__(), repr(sp), hash(sp))
         switch_registry(current, regs2)
         current = regs2
-        if how == 'copy':
-            r = attempt(lambda: copy.copy(sp))
-        elif how == 'deepcopy':
-            r = attempt(lambda: copy.deepcopy(sp))
-        else:
-            r = attempt(lambda: pickle.loads(data))
+        with ctx_load[0]:
+            if how == 'copy':
+                r = attempt(lambda: copy.copy(sp))
+            elif how == 'deepcopy':
+                r = attempt(lambda: copy.deepcopy(sp))
+            else:
+                r = attempt(lambda: pickle.loads(data))
         res.count('how_' + how)
         res.evaluations += 1
         if r[0] != 0:
